@@ -445,3 +445,95 @@ Proof.
   intros s acts s' Hs Ha. destruct (SimP_plan_gen acts [] s s s' (pend_rel_refl s) Hs Ha) as [L [v' [G [_ [R Rel]]]]].
   exists L, (catalog_of v'). repeat split; [exact G|exact R|]. exists v'. split; [reflexivity|exact Rel].
 Qed.
+
+(* ---------- with nothing pending the two catalogs are the same set of objects ---------- *)
+Lemma existsb_perm {A} (p : A -> bool) : forall l1 l2, Permutation l1 l2 -> existsb p l1 = existsb p l2.
+Proof.
+  intros l1 l2 H. induction H; cbn [existsb]; try reflexivity.
+  - rewrite IHPermutation. reflexivity.
+  - destruct (p y), (p x); reflexivity.
+  - rewrite IHPermutation1. exact IHPermutation2.
+Qed.
+
+Lemma generated_indep : forall fks K, fk_indep fks = true ->
+  generated_indexes K fks
+  = flat_map (fun f => if (nonempty (fk_cols f) && existsb (is_prefix (fk_cols f)) K)%bool then [] else [mkMIndex (fk_name f) (fk_cols f) false true]) fks.
+Proof.
+  induction fks as [|f r IH]; intros K H; [reflexivity|]. cbn [fk_indep] in H. apply Bool.andb_true_iff in H. destruct H as [Hf Hr].
+  cbn [generated_indexes flat_map]. destruct (nonempty (fk_cols f) && existsb (is_prefix (fk_cols f)) K)%bool.
+  - cbn [app]. apply IH. exact Hr.
+  - cbn [app]. f_equal. rewrite (IH (K ++ [fk_cols f]) Hr). apply flat_map_ext_in. intros g Hg.
+    rewrite existsb_app. cbn [existsb]. rewrite forallb_forall in Hf. specialize (Hf g Hg). apply Bool.negb_true_iff in Hf. rewrite Hf, !Bool.orb_false_r. reflexivity.
+Qed.
+
+Lemma perm_le1 {A} : forall l1 l2 : list A, Permutation l1 l2 -> (List.length l1 <= 1)%nat -> l1 = l2.
+Proof.
+  intros l1 l2 H Hl. destruct l1 as [|x [|y l]].
+  - apply Permutation_nil in H. subst. reflexivity.
+  - apply Permutation_length_1_inv in H. subst. reflexivity.
+  - cbn in Hl. lia.
+Qed.
+
+Lemma map_core_ext {B} (F : column_def -> B) : forall l1 l2, map col_core l1 = map col_core l2 ->
+  (forall c c', col_core c = col_core c' -> F c = F c') -> map F l1 = map F l2.
+Proof.
+  induction l1 as [|x l1 IH]; intros l2 H HF; destruct l2 as [|y l2]; try discriminate; [reflexivity|].
+  cbn [map] in H. assert (Hh : col_core x = col_core y) by congruence. assert (Ht : map col_core l1 = map col_core l2) by congruence.
+  cbn [map]. rewrite (HF x y Hh), (IH l2 Ht HF). reflexivity.
+Qed.
+
+Lemma catalog_of_table_perm : forall ts tv,
+  t_name ts = t_name tv -> map col_core (t_columns ts) = map col_core (t_columns tv) ->
+  Permutation (t_constraints ts) (t_constraints tv) ->
+  table_order_free ts = true -> table_order_free tv = true ->
+  table_equiv (catalog_of_table tv) (catalog_of_table ts).
+Proof.
+  intros ts tv Hn Hc Hp Hos Hov. unfold table_order_free in Hos, Hov.
+  apply Bool.andb_true_iff in Hos. destruct Hos as [Hpk1 Hfs]. apply Bool.andb_true_iff in Hov. destruct Hov as [_ Hfv].
+  destruct ts as [n ds cs ks]. destruct tv as [n' ds' cv kv]. cbn [t_name t_columns t_constraints] in *. subst n'.
+  assert (Hfpk : filter is_pk ks = filter is_pk kv).
+  { apply perm_le1; [apply Permutation_filter'; exact Hp|]. apply Nat.leb_le. exact Hpk1. }
+  assert (Hfp : first_pk kv = first_pk ks) by (unfold first_pk; rewrite Hfpk; reflexivity).
+  assert (Hau : forall x, mem_str x (auto_increment_columns kv) = mem_str x (auto_increment_columns ks)).
+  { intro x. unfold mem_str. apply existsb_perm. unfold auto_increment_columns. apply Permutation_flat_map'. apply Permutation_sym. exact Hp. }
+  assert (HU : Permutation (unique_indexes n kv) (unique_indexes n ks)) by (unfold unique_indexes; apply Permutation_flat_map'; apply Permutation_sym; exact Hp).
+  assert (HPl : Permutation (plain_indexes n kv) (plain_indexes n ks)) by (unfold plain_indexes; apply Permutation_flat_map'; apply Permutation_sym; exact Hp).
+  assert (HF : Permutation (create_fks n kv) (create_fks n ks)) by (unfold create_fks; apply Permutation_flat_map'; apply Permutation_sym; exact Hp).
+  unfold table_equiv, catalog_of_table. cbn [t_name t_columns t_constraints tb_name tb_cols tb_pk tb_indexes tb_fks tb_checks].
+  repeat split.
+  - change (map (mk_mcol kv) cv = map (mk_mcol ks) cs). transitivity (map (mk_mcol ks) cv).
+    + apply map_ext. intro c. unfold mk_mcol. rewrite Hfp, Hau. reflexivity.
+    + symmetry. apply map_core_ext; [exact Hc|]. intros c c' E. apply mk_mcol_core. exact E.
+  - exact Hfp.
+  - unfold explicit_indexes. rewrite Hfp. apply Permutation_app; [apply Permutation_app; assumption|].
+    rewrite (generated_indep _ _ Hfv), (generated_indep _ _ Hfs).
+    eapply Permutation_trans; [apply Permutation_flat_map'; exact HF|].
+    erewrite flat_map_ext_in; [apply Permutation_refl|]. intros f _. cbn beta.
+    rewrite !existsb_app.
+    rewrite (existsb_perm (is_prefix (fk_cols f)) (map ix_cols (unique_indexes n kv ++ plain_indexes n kv)) (map ix_cols (unique_indexes n ks ++ plain_indexes n ks))); [reflexivity|].
+    apply Permutation_map. apply Permutation_app; assumption.
+  - exact HF.
+  - apply Permutation_flat_map'. apply Permutation_sym. exact Hp.
+Qed.
+
+Lemma pend_rel_nil_equiv : forall s v, pend_rel [] s v -> order_free s = true -> order_free v = true ->
+  cat_equiv (catalog_of v) (catalog_of s).
+Proof.
+  intros s v H. unfold cat_equiv, catalog_of, order_free. induction H as [|a b s v Hab _ IH]; intros Hs Hv; [constructor|].
+  cbn [forallb] in Hs, Hv. apply Bool.andb_true_iff in Hs. apply Bool.andb_true_iff in Hv. destruct Hs as [Ha Hs]. destruct Hv as [Hb Hv].
+  cbn [map]. constructor; [|apply IH; assumption].
+  destruct Hab as [R1 [R2 R3]]. cbn [pend_of filter map] in R3. rewrite app_nil_r in R3. apply catalog_of_table_perm; assumption.
+Qed.
+
+(* ---------- C04 on plans with columns added together with inline constraints ---------- *)
+Theorem SimP_plan_equiv : forall s acts s',
+  simp_plan_full s acts = true -> apply_all s acts = Ok s' ->
+  exists L c', gen_plan s acts = Ok L /\ run (catalog_of s) (List.concat L) = RunOk c' /\ cat_equiv c' (catalog_of s').
+Proof.
+  intros s acts s' H Ha. unfold simp_plan_full in H.
+  apply Bool.andb_true_iff in H; destruct H as [H Hof]. apply Bool.andb_true_iff in H; destruct H as [Hs Hp].
+  destruct (SimP_plan_gen acts [] s s s' (pend_rel_refl s) Hs Ha) as [L [v' [G [AV [R Rel]]]]].
+  rewrite Ha, AV in Hof. apply Bool.andb_true_iff in Hof. destruct Hof as [O1 O2].
+  destruct (pend_at s [] acts); [|discriminate].
+  exists L, (catalog_of v'). repeat split; [exact G|exact R|]. apply pend_rel_nil_equiv; assumption.
+Qed.
